@@ -135,10 +135,15 @@ def s2(ctx, rep, clause="S2"):
     # the error names the failed trial
     g = P.method("Tuner", "_handle_failure")
     raises = [n for n in walk_shallow(g.node) if isinstance(n, ast.Raise)]
+    lp = [s_ for s_ in walk_shallow(g.node) if isinstance(s_, ast.For) and isinstance(s_.iter, ast.Call) and fn_name(s_.iter) == "items"
+          and isinstance(s_.target, ast.Tuple) and any(r is x for r in raises for x in ast.walk(s_))]
+    if len(lp) != 1:
+        raise AnchorError("Tuner._handle_failure: loop over (trial id, (trial, status)) enclosing the raise not found")
+    tidv = U(lp[0].target.elts[0])
     ok = False
     for r in raises:
         fs = [x for x in ast.walk(r) if isinstance(x, ast.FormattedValue)]
-        if any("trial_id" in U(x.value) for x in fs):
+        if any(U(x.value) == tidv for x in fs):
             ok = True
     cg = cfg_of(g)
     rn = [n.id for n in cg.nodes if n.kind == "stmt" and isinstance(n.ast, ast.Raise)]
@@ -297,7 +302,11 @@ def s5(ctx, rep):
         for st in walk_shallow(f.node):
             if isinstance(st, ast.Assign) and isinstance(st.targets[0], ast.Subscript) and U(st.targets[0].value) == v.id:
                 src += " | " + U(st)
-    ok = "ST_TUNER_TIME" in src and "max_wallclock_time" in src
+    from ..engine import flows_into
+    ok = "ST_TUNER_TIME" in src and v is not None and (
+        flows_into(f, v, lambda y: isinstance(y, ast.Attribute) and y.attr == "max_wallclock_time") or any(
+            isinstance(st, ast.Assign) and isinstance(st.targets[0], ast.Subscript) and isinstance(v, ast.Name) and U(st.targets[0].value) == v.id
+            and flows_into(f, st.value, lambda y: isinstance(y, ast.Attribute) and y.attr == "max_wallclock_time") for st in walk_shallow(f.node)))
     rep.put(ok, "S5", "ctor_coverage", "SimulatorCallback._modify_stop_criterion maps max_wallclock_time to ST_TUNER_TIME threshold",
             f, call, src)
     # the original is restored at the end
